@@ -252,7 +252,7 @@ namespace foonathan
 
 namespace
 {
-    thread_local alignas(temporary_stack) char temporary_stack_storage[sizeof(temporary_stack)];
+    alignas(temporary_stack) thread_local char temporary_stack_storage[sizeof(temporary_stack)];
     thread_local bool is_created = false;
 
     temporary_stack& get() noexcept
